@@ -126,6 +126,20 @@ func (p *Prog) ResolveAnchors() *Anchors {
 			return r
 		},
 	}
+	byUse["tracker"] = func() *types.Var {
+		// the field StateTracker() answers from
+		var r *types.Var
+		if f := p.Func(cl, "(*Conn).StateTracker"); f != nil {
+			funcInstrs(f, func(in ssa.Instruction) {
+				if rt, ok := in.(*ssa.Return); ok && len(rt.Results) == 1 {
+					if fv, _ := loadedField(rt.Results[0]); fv != nil && typeString(fv.Type()) == modPath+"/state.Tracker" {
+						r = fv
+					}
+				}
+			})
+		}
+		return r
+	}
 	get := func(dst **types.Var, ts, role string) {
 		*dst = uniqueField(a.ConnS, ts)
 		if *dst == nil {
